@@ -9,8 +9,9 @@ static bool special_wants_global_quiescence() { return g_global_quiescence; }
 struct PCState { std::deque<int> ring; size_t cap = 4; size_t rounds = 0; size_t n = 64; bool prod_done = false; std::vector<size_t> samples; int next_slot = 0; };
 static PCState PC;
 
+static void probe_reuse(int self, mi_heap_t* hp, size_t n, int opi);   // (defined with the keeper rounds below)
 static void pc_producer(int self, const Op& op) {
-  PC.rounds = op.num("rounds", 400); PC.cap = op.num("live", 4); PC.n = op.num("n", 64); if (PC.cap < 1) PC.cap = 1; if (PC.cap > 64) PC.cap = 64;
+  PC.rounds = op.num("rounds", 400); PC.cap = op.num("live", 4); PC.n = op.num("n", 64); if (PC.cap < 1) PC.cap = 1; if (PC.cap > 256) PC.cap = 256;
   size_t every = PC.rounds / 20 + 1;
   for (size_t r = 0; r < PC.rounds; r++) {
     S.vt[self].waiting = true; S.vt[self].can_go = []() { return PC.ring.size() < PC.cap; }; while (PC.ring.size() >= PC.cap) { if (!others_alive(self)) { S.vt[self].waiting = false; PC.prod_done = true; return; } vt_wait_yield(); } S.vt[self].waiting = false;
@@ -19,6 +20,8 @@ static void pc_producer(int self, const Op& op) {
     model_add(s, (uint8_t*)launder(p), PC.n, self, "PC"); PC.ring.push_back(s);
     if (r % every == 0) { AreaCount ac; mi_heap_visit_blocks(mi_heap_get_backing(), false, &area_cb, &ac); PC.samples.push_back(ac.areas); if (ac.areas > S.r->counters[C_AREAS_MAX]) S.r->counters[C_AREAS_MAX] = ac.areas; }
   }
+  // everything handed over has been freed by the consumer: what it freed must be reusable by the producer (same probe as in the keeper rounds)
+  probe_reuse(self, mi_heap_get_backing(), PC.n, S.vt[self].cur_op);
   PC.prod_done = true;
   // bounded memory: the number of areas (pages) of the producing heap must not grow with the number of rounds
   size_t h = PC.samples.size() / 2, m1 = 0, m2 = 0; for (size_t i = 0; i < PC.samples.size(); i++) { if (i < h) m1 = std::max(m1, PC.samples[i]); else m2 = std::max(m2, PC.samples[i]); }
@@ -92,6 +95,9 @@ static void kr_fill(int self, const Op& op, int opi) {
 }
 static void kr_probe(int self, const Op& op, int opi) {
   mi_heap_t* hp = kr_heap(self, op); if (!hp) return; size_t n = op.num("n", 1000); if (n < 1) n = 1;
+  probe_reuse(self, hp, n, opi);
+}
+static void probe_reuse(int self, mi_heap_t* hp, size_t n, int opi) {
   if (!kr_sync(self)) return;
   // the owner collects first: blocks freed into a full page wait on the heap's delayed list, which an allocating owner only drains every
   // 100 generic allocations; a collect drains it at once (without it, taking a fresh page in the meantime is allowed behaviour)
@@ -106,6 +112,12 @@ static void kr_probe(int self, const Op& op, int opi) {
   if (I1.areas > I0.areas && vf_dump_heap) vf_dump_heap(hp);
   if (I1.areas > I0.areas) fail_now("not-reused", "thread %d op#%d: no free is in flight and the heap reports room for %zu more blocks of %zu bytes in its %zu pages (%zu blocks in use), yet allocating %zu such blocks made it take %zu fresh page(s): blocks freed by other threads did not become reusable by the owner", self, opi, I0.room, n, I0.areas, I0.used, I0.room, I1.areas - I0.areas);
   for (uint8_t* p : got) { if (p[0] != 0x5A || p[n - 1] != 0xA5) fail_now("contents", "probe block %p changed", p); call_begin(); mi_free(p); call_end(); }
+}
+// k allocations of another (non-small) size from the same heap, each freed at once: every one takes the generic path, whose 100th call is what
+// drains the heap's delayed-free list for an owner that never collects
+static void kr_generic(int self, const Op& op, int opi) {
+  mi_heap_t* hp = kr_heap(self, op); if (!hp) return; size_t k = op.num("k", 100), n = op.num("n", 5000); if (k > 400) k = 400; if (n <= 1024) n = 5000;
+  for (size_t i = 0; i < k; i++) { call_begin(); void* p = mi_heap_malloc(hp, n); call_end(); if (!p) fail_now("null", "thread %d op#%d malloc(%zu) returned NULL", self, opi, n); ((uint8_t*)p)[0] = 1; call_begin(); mi_free(p); call_end(); }
 }
 static void kr_quiesce_heap(int self, const Op& op) {
   mi_heap_t* hp = kr_heap(self, op); if (!hp) return; if (!kr_sync(self)) return;
@@ -194,6 +206,7 @@ static void special_op(int self, const Op& op, int opi) {
   else if (nm == "AA") ar_alloc(self, op);
   else if (nm == "T") vf_clock_advance((long)op.num("ms", 1));
   else if (nm == "SERVE") kr_serve(self); else if (nm == "POST") kr_post(self, op); else if (nm == "FILL") kr_fill(self, op, opi); else if (nm == "SY") kr_sync(self);
+  else if (nm == "GN") kr_generic(self, op, opi);
   else if (nm == "RP") kr_probe(self, op, opi); else if (nm == "QH") kr_quiesce_heap(self, op); else if (nm == "STOP") KR.stop = true;
 }
 
@@ -201,8 +214,9 @@ static void special_op(int self, const Op& op, int opi) {
 static Case gen_pc_program(Chooser& ch) {
   Case c; c.push_back(Op("opt").s("name", "generic_collect").u("v", 1000000));
   static const std::vector<size_t> sizes = { 16, 48, 200, 1000, 8*KiB, 64*KiB, 100*KiB }; static const std::vector<size_t> lives = { 1, 4, 16, 64 };
-  size_t rounds = (size_t)ch.range(600, 2500);
-  c.push_back(Op("PCP").u("t", 0).u("rounds", rounds).u("live", ch.of(lives)).u("n", ch.of(sizes)));
+  size_t rounds = (size_t)ch.range(600, 2500); size_t n = ch.of(sizes), live = ch.of(lives);
+  if (ch.chance(1, 3)) { size_t per = (n <= 8*KiB ? 64*KiB / (n + 16) : (n <= 64*KiB ? 512*KiB / n : 1)); if (per >= 2 && per <= 200) live = per + ch.range(0, 2); }   // about one page plus one block in flight
+  c.push_back(Op("PCP").u("t", 0).u("rounds", rounds).u("live", live).u("n", n));
   c.push_back(Op("PCC").u("t", 1));
   c.push_back(Op("J").u("t", 0)); c.push_back(Op("Q").u("t", 0));
   for (size_t i = 0; i < c.size(); i++) c[i].u("i", i);
@@ -215,13 +229,16 @@ static Case gen_keeper_program(Chooser& ch) {
   c.push_back(Op("HN").u("t", 0).u("h", 1));
   for (int t = 1; t <= helpers; t++) c.push_back(Op("SERVE").u("t", (uint64_t)t));
   auto O = [&](Op op) { op.u("t", 0); c.push_back(op); };
+  if (ch.chance(1, 2)) {   // prologue: the only block of the only page of the class is freed remotely and handled by the owner (the page is retired, not freed, and used again below)
+    int s = NSLOT - 1; O(Op("A").u("s", (uint64_t)s).u("n", n).u("h", 1)); O(Op("POST").u("s", (uint64_t)s).u("h", 1)); O(Op("SY"));
+    if (ch.chance(1, 3)) O(Op("HC").u("h", 1).u("force", 0)); else O(Op("GN").u("h", 1).u("k", ch.range(100, 130)).u("n", ch.chance(1, 2) ? 5000 : 70000)); }
   for (int r = 0; r < R; r++) {
     int base = (r % regions) * W; int a0 = (int)ch.range(2, 8); int keeper = base + (int)ch.pick((size_t)a0);
     for (int i = 0; i < a0; i++) O(Op("A").u("s", (uint64_t)(base + i)).u("n", n).u("h", 1));
     int ne = (int)ch.pick(4); if (ne == 3) ne = 1;
     for (int e = 0; e < ne; e++) { int s = base + (int)ch.pick((size_t)a0); if (s != keeper) O(Op("POST").u("s", (uint64_t)s).u("h", 1)); }
     if (ne > 0 && ch.chance(3, 4)) O(Op("SY"));
-    if (ch.chance(1, 3)) O(Op("HC").u("h", 1).u("force", 0));
+    if (ch.chance(1, 3)) O(Op("HC").u("h", 1).u("force", 0)); else if (ch.chance(1, 4)) O(Op("GN").u("h", 1).u("k", ch.range(30, 120)).u("n", 5000));
     O(Op("FILL").u("ref", (uint64_t)keeper).u("base", (uint64_t)base).u("max", (uint64_t)(W - 12)).u("extra", ch.pick(4)).u("n", n).u("h", 1));
     Op post("POST"); post.u("lo", (uint64_t)base).u("hi", (uint64_t)(base + W)).u("keep", (uint64_t)keeper).u("h", 1); if (ch.chance(1, 4)) post.u("keep2", (uint64_t)(base + (int)ch.pick((size_t)W - 12))); O(post);
     if (r >= K) { int ob = ((r - K) % regions) * W; O(Op("POST").u("lo", (uint64_t)ob).u("hi", (uint64_t)(ob + W)).u("h", 1)); }
